@@ -8,27 +8,648 @@ items, at least one dependency) the verdict must be up-to-date.  Touch / same-co
 md5 and the immediate re-check after SaveOk are part of the scripted and random histories; the family
 utd-flip of c03.py (a run whose uptodate item is false after an edit of a file dep, then nothing / a rewrite the
 checker calls unmodified) is the one that needs the state of EVERY file dep recorded by such a run.
+
+Family `getargs` (this file; model: coq/Model/Getargs.v on top of Status.v / History.v).
+Values taken from other tasks: `getargs` (one implicit result_dep(provider, setup_dep=True) per provider; the
+provider is a SETUP-task: it runs between the consumer's up-to-date check and the consumer's execution) and
+explicit `uptodate=[result_dep(provider)]` (the provider is a task_dep: it runs before the consumer's check).
+Run-level histories over 3 tasks, through DoitMain in-process (real loader, TaskControl, TaskDispatcher, Runner /
+MThreadRunner, Dependency on json | dbm | sqlite3, md5 | timestamp checker, a recording reporter):
+    ('SetChecker', ck)  ('Order', [t..]) = order of the task-creators in the dodo file
+    ('Write', f, c) ('Touch', f)         = file operations (harness clock; files 0,1 are file deps, 2 a target of T0)
+    ('GDef', t, d)                       = the definition of Tt changed; d = file_dep, targets, uptodate (bool / None / callable /
+                                           command / run_once / config_changed / result_dep), the values and the result its
+                                           actions produce, getargs = [(provider, i)] meaning {'a<n>': ('T<provider>', 'u<i>')}
+    ('Run', sel, plain, par, fails)      = doit run --continue [-n 2 -P thread] [T.. of sel]   (plain: no task on the
+                                           command line = every task in definition order); the actions of `fails` fail
+    ('Forget', t) ('Ignore', t)          = doit forget Tt / doit ignore Tt
+Encoding compared with `gobserve (grun ..)` of Getargs.v (serial runs only): per run, for every task in the order of its
+final report [t; code] (0 executed+saved, 1 executed+failed, 2 skipped up-to-date, 3 skipped ignored, 4 failed without
+being executed), then -8; then -7 and the logical DB content as in c03 (records, file states, values incl. `_result:*`).
+Histories with a threaded run are judged by the oracles only (which of two independent tasks a threaded runner reaches
+first is not modelled; the check of a getargs consumer is not ordered after a provider that is already running: recorded
+as a known finding of C08).
+Independent oracles (no use of the model, no use of the real uptodate objects), both on the reporter's event order:
+  * shadow: per task what its last successful execution saw -- checker, file_dep, (mtime,size,content) of each, the
+    uptodate items, and for every provider the result the provider's record held at that moment; at reporter.get_status(t)
+    the conditions of C04 are evaluated on the live state (config_changed: same value as saved; run_once: saved;
+    result_dep: the provider's record holds a result and it is the one seen then); if they all hold and the runner
+    executes t: `c04-unchanged-rerun-getargs`;
+  * repeat: a run repeated immediately (same command line, nothing in between) after a fully successful one (exit 0, every
+    task executed+saved or up-to-date) must not execute a task, unless the task can never be up-to-date by definition (no
+    file_dep and no evaluated item; an item that is false by definition: False / callable False / failing command /
+    result_dep on a provider whose record holds no result; a missing target) or a provider of it was executed in the first run
+    AFTER the task's own last success in that run (lazy getargs: the consumer was checked before) or again in the repeated run
+    before the task was checked (a chain of such consumers settles one level per run): `c04-repeat-run-reexecuted`.
 """
+import contextlib, io, json, os
 import common
 from common import Outcome
 import c03
 
+NT = c03.NT
+
+PRE_G = ('From DoitV Require Import Base Status History Getargs.\nOpen Scope Z_scope.\n'
+         'Definition md5o (c : N) : N := c.\n'
+         'Definition sizeo (c : N) : Z := match c with 0%N => 4 | 1%N => 4 | 2%N => 2 | 3%N => 4 | 4%N => 0 | _ => 7 end.\n'
+         'Definition gobsv (l : list gop) : list Z := gobserve [0;1;2]%N [0;1;2]%N (grun md5o sizeo current l).\n')
+
+
+def G(fd=(), tg=(), utd=(), values=(), result=None, getargs=()):
+    return dict(file_dep=list(fd), targets=list(tg), uptodate=[tuple(u) for u in utd], values=[tuple(x) for x in values],
+                result=result, getargs=[tuple(x) for x in getargs])
+
+
+EMPTY = G()
+
+
+def norm(h):
+    """history from JSON: lists back to tuples"""
+    res = []
+    for o in h:
+        o = tuple(o)
+        if o[0] == 'GDef':
+            o = ('GDef', o[1], G(o[2]['file_dep'], o[2]['targets'], o[2]['uptodate'], o[2]['values'], o[2]['result'], o[2].get('getargs', ())))
+        res.append(o)
+    return res
+
+
+def providers(d):
+    """providers of the getargs entries"""
+    res = []
+    for p, _ in d['getargs']:
+        if p not in res:
+            res.append(p)
+    return res
+
+
+def res_deps(d):
+    """every task an (explicit or implicit) result_dep item of d looks at"""
+    res = [u[1] for u in d['uptodate'] if u[0] == 'result_dep']
+    return res + [p for p in providers(d) if p not in res]
+
+
+def getargs_dict(d):
+    """the getargs attribute of the real task (run_g) -- the insertion order is part of the input"""
+    return {'a%d' % i: ('T%d' % p, 'u%d' % k) for i, (p, k) in enumerate(d['getargs'])}
+
+
+def model_getargs(d):
+    """getargs entries in the order in which the real Task lists the providers in task.setup_tasks
+    (Task._init_getargs collects them in a set: the iteration order of that set -- it depends on the
+    insertion order too -- is the order of the implicit result_dep items and of the setup-tasks)"""
+    if len(set(p for p, _ in d['getargs'])) < 2:
+        return list(d['getargs'])
+    from doit.task import Task
+    order = [int(n[1:]) for n in Task('x', None, getargs=getargs_dict(d)).setup_tasks]
+    return sorted(d['getargs'], key=lambda pk: order.index(pk[0]))
+
+
+def sel_of(o, order):
+    return list(order) if o[2] else list(o[1])
+
+
+def g_coq(h):
+    order = list(range(NT))
+    out = []
+    for o in h:
+        k = o[0]
+        if k == 'Order':
+            order = list(o[1])
+        elif k == 'GDef':
+            d = o[2]
+            out.append('GSetDef %d {| rd_def := %s; rd_getargs := [%s] |}' % (
+                o[1], c03.def_coq(d), '; '.join('(%d, %d)' % (p, i) for p, i in model_getargs(d))))
+        elif k == 'Run':
+            out.append('GRun [%s] [%s]' % ('; '.join(map(str, sel_of(o, order))), '; '.join(map(str, o[4]))))
+        elif k == 'Forget':
+            out.append('GP (Remove %d)' % o[1])
+        else:
+            out.append('GP (%s)' % c03.op_coq(o))
+    return 'gobsv ([%s]%%N)' % '; '.join(out)
+
+
+class GReporter:
+    """recording reporter: every call the runner makes, in order"""
+    log = None
+    desc = 'recording'
+
+    def __init__(self, outstream, options):
+        pass
+
+    def initialize(self, tasks, selected_tasks):
+        pass
+
+    def get_status(self, task):
+        GReporter.log.append(('status', task.name))
+
+    def execute_task(self, task):
+        GReporter.log.append(('execute', task.name))
+
+    def add_failure(self, task, fail):
+        GReporter.log.append(('failure', task.name))
+
+    def add_success(self, task):
+        GReporter.log.append(('success', task.name))
+
+    def skip_uptodate(self, task):
+        GReporter.log.append(('uptodate', task.name))
+
+    def skip_ignore(self, task):
+        GReporter.log.append(('ignore', task.name))
+
+    def cleanup_error(self, exception):
+        GReporter.log.append(('cleanup_error', None))
+
+    def runtime_error(self, msg):
+        GReporter.log.append(('runtime_error', None))
+
+    def teardown_task(self, task):
+        pass
+
+    def complete_run(self):
+        pass
+
+
+NEVER_ITEMS = (('bool', False), ('call', False), ('cmd', False))
+
+
+class GShadow:
+    """what the last successful execution of each task saw; never looks at the DB or at the real uptodate objects"""
+    def __init__(self):
+        self.last_ok = {}
+        self.cur_result = {}         # the result each task's record holds (None: no record / no result)
+        self.fresh = True
+
+    def item(self, u, sn):
+        k = u[0]
+        if k in ('bool', 'call', 'cmd'):
+            return u[1]
+        if k == 'none':
+            return None
+        if sn is None:
+            return False
+        if k == 'run_once':
+            return ('run_once',) in sn['items']
+        if k == 'config':
+            saved = [x[1] for x in sn['items'] if x[0] == 'config']
+            return bool(saved) and saved[-1] == u[1]
+        if k == 'result_dep':
+            then = sn['results'].get(u[1])
+            return then is not None and then == self.cur_result.get(u[1])
+        raise ValueError(u)
+
+    def complete(self, w, d, t):
+        """the hypotheses of C04 hold for t right now"""
+        sn = self.last_ok.get(t)
+        items = [self.item(u, sn) for u in d['uptodate']] + [self.item(('result_dep', p), sn) for p in providers(d)]
+        fd = set(d['file_dep'])
+        if not all(x is not False for x in items):
+            return False
+        if not (fd or any(x is not None for x in items)):
+            return False
+        if not all(f in w.fsview for f in d['targets']):
+            return False
+        if sn is None:
+            return not fd
+        return (sn['ck'] == w.ck and set(sn['file_dep']) == fd and
+                all(f in w.fsview and c03.Shadow.unmodified(w.ck, sn['view'][f], w.fsview[f]) for f in fd))
+
+    def success(self, w, d, t):
+        self.last_ok[t] = dict(ck=w.ck, file_dep=list(d['file_dep']), view={f: w.fsview[f] for f in d['file_dep']},
+                               items=list(d['uptodate']), results={p: self.cur_result.get(p) for p in res_deps(d)})
+        if d['result'] is not None:         # a falsy task.result leaves the saved 'result:' alone (dependency.py 541-547)
+            self.cur_result[t] = d['result']
+
+    def gone(self, t):
+        self.last_ok.pop(t, None)
+        self.cur_result.pop(t, None)
+
+
+def never_uptodate(w, defs, sh, t):
+    """t can never be up-to-date by definition (or a documented condition holds whatever was recorded)"""
+    d = defs[t]
+    items = list(d['uptodate'])
+    if not d['file_dep'] and all(u[0] == 'none' or u == ('call', None) for u in items) and not d['getargs']:
+        return True
+    if any(u in NEVER_ITEMS for u in items):
+        return True
+    if any(sh.cur_result.get(p) is None for p in res_deps(d)):     # the provider's record holds no result
+        return True
+    return any(f not in w.fsview for f in d['targets'])
+
+
+def run_g(ctx, backend, h, out):
+    """executes a run-level history of the family `getargs` through DoitMain; returns the ints observed;
+    findings of the two oracles are appended to out.c04_violations"""
+    from doit.doit_cmd import DoitMain
+    from doit.cmd_base import ModuleTaskLoader
+    w = c03.World(ctx, backend, 'g')
+    w.dep.close()
+    sh = GShadow()
+    defs = {t: EMPTY for t in range(NT)}
+    st = dict(order=list(range(NT)), fails=())
+    obs = []
+    prev = None          # (index, op, rc, codes, log) of the previous operation when it was a run
+
+    def mk(t):
+        d = defs[t]
+        acts = []
+        if d['values']:
+            vals = {('u%d' % k): x for k, x in d['values']}
+            acts.append((lambda vals=vals: dict(vals),))
+
+        def final(**kw):
+            if t in st['fails']:
+                return False
+            return True if d['result'] is None else 'res%d' % d['result']
+        acts.append((final,))
+        res = {'actions': acts, 'file_dep': [w.path(f) for f in sorted(d['file_dep'])],
+               'targets': [w.path(f) for f in d['targets']], 'uptodate': [w.make_utd(tuple(u)) for u in d['uptodate']]}
+        if d['getargs']:
+            res['getargs'] = getargs_dict(d)
+        return res
+
+    def namespace():
+        cfg = {'dep_file': w.dbpath, 'backend': {'json': 'json', 'dbm': 'dbm', 'sqlite': 'sqlite3'}[backend],
+               'check_file_uptodate': 'md5' if w.ck == 'md5' else 'timestamp',
+               'reporter': GReporter, 'verbosity': 0, 'continue': True}
+        # real task-creators at distinct source lines: the loader orders them by line number
+        # (loader.py sorts by inspect.getsourcelines: the source is a real file, one per definition order)
+        src = ''.join('def task_T%d():\n    return _mk(%d)\n' % (t, t) for t in st['order'])
+        path = os.path.join(ctx.subdir('gdodo'), 'dodo_%s.py' % ''.join(map(str, st['order'])))
+        if not os.path.exists(path):
+            with open(path, 'w') as fh:
+                fh.write(src)
+        ns = {'_mk': mk}
+        exec(compile(src, path, 'exec'), ns)
+        ns['DOIT_CONFIG'] = cfg
+        return {k: v for k, v in ns.items() if k.startswith('task_') or k == 'DOIT_CONFIG'}
+
+    def doit(args):
+        GReporter.log = []
+        buf = io.StringIO()
+        with contextlib.redirect_stdout(buf), contextlib.redirect_stderr(buf):
+            try:
+                rc = DoitMain(ModuleTaskLoader(namespace())).run(args)
+            except SystemExit:
+                rc = 90
+        return rc, list(GReporter.log), buf.getvalue()
+
+    try:
+        for idx, o in enumerate(h):
+            k = o[0]
+            this = None
+            if k in ('Write', 'Touch'):
+                w.apply(o)
+                if w.not_fresh:
+                    sh.fresh = False
+            elif k == 'SetChecker':
+                w.ck = o[1]
+            elif k == 'Order':
+                if sorted(o[1]) == list(range(NT)):
+                    st['order'] = list(o[1])
+            elif k == 'GDef':
+                defs[o[1]] = o[2]
+            elif k == 'Forget':
+                doit(['forget', 'T%d' % o[1]])
+                sh.gone(o[1])
+            elif k == 'Ignore':
+                doit(['ignore', 'T%d' % o[1]])
+            elif k == 'Run':
+                sel, plain, par, fails = sel_of(o, st['order']), o[2], o[3], tuple(o[4])
+                st['fails'] = fails
+                args = ['run', '--continue'] + (['-n', '2', '-P', 'thread'] if par else []) + ([] if plain else ['T%d' % t for t in sel])
+                rc, log, txt = doit(args)
+                if rc not in (0, 1, 2):
+                    obs += [97, rc, -8]
+                    prev = None
+                    continue
+                # ---- what the runner did, per task, in the order of the final reports
+                executed, verdict, pairs, pos_ok, pos_status, pos = set(), {}, [], {}, {}, 0
+                for ev, n in log:
+                    pos += 1
+                    if n is None:
+                        continue
+                    t = int(n[1:])
+                    if ev == 'status':
+                        verdict.setdefault(t, sh.fresh and sh.complete(w, defs[t], t))
+                        pos_status.setdefault(t, pos)
+                    elif ev == 'execute':
+                        executed.add(t)
+                        if verdict.get(t):
+                            out.c04_violations.append(dict(
+                                what='runner executed a task although nothing changed since its last successful execution '
+                                     '(file deps, targets, uptodate items and the results of the tasks it takes values from are as they were)',
+                                shape='c04-unchanged-rerun-getargs', case=dict(history=h, backend=backend, task=t, run=idx)))
+                    elif ev == 'success':
+                        pairs.append((t, 0 if t in executed else 96))
+                        pos_ok[t] = pos
+                        sh.success(w, defs[t], t)
+                    elif ev == 'failure':
+                        pairs.append((t, 1 if t in executed else 4))
+                        sh.gone(t)
+                    elif ev == 'uptodate':
+                        pairs.append((t, 2))
+                    elif ev == 'ignore':
+                        pairs.append((t, 3))
+                if par:
+                    pairs.sort()
+                for t, c in pairs:
+                    obs += [t, c]
+                    out.count('g-decision:%d' % c)
+                obs.append(-8)
+                # ---- the run repeated immediately after a fully successful one
+                if (prev is not None and prev[0] == idx - 1 and tuple(prev[1][1:]) == tuple(o[1:]) and not fails
+                        and prev[2] == 0 and all(c in (0, 2) for _, c in prev[3]) and sh.fresh):
+                    out.count('g-repeat-judged')
+                    for t in sorted(executed):
+                        if never_uptodate(w, defs, sh, t):
+                            out.count('g-repeat-exec:never-up-to-date')
+                            continue
+                        mine = prev[4].get(t, 0)
+                        if any(prev[4].get(p, 0) > mine for p in res_deps(defs[t])):
+                            out.count('g-repeat-exec:provider-ran-after-consumer')
+                            continue
+                        if any(pos_ok.get(p, pos + 1) < pos_status.get(t, 0) for p in res_deps(defs[t])):
+                            out.count('g-repeat-exec:provider-ran-again-before-consumer')      # a chain of lazy consumers settles one level per run
+                            continue
+                        out.c04_violations.append(dict(
+                            what='a run repeated immediately after a fully successful one executed a task that has a file_dep / '
+                                 'uptodate item and can be up-to-date',
+                            shape='c04-repeat-run-reexecuted', case=dict(history=h, backend=backend, task=t, run=idx)))
+                    if not executed:
+                        out.count('g-repeat:no-op')
+                this = (idx, o, rc, pairs, pos_ok)
+            else:
+                raise ValueError(o)
+            prev = this
+        w.open()
+        try:
+            dump = w.dump()
+        except Exception as e:  # noqa
+            dump = [97, len(type(e).__name__)]
+    finally:
+        w.finish()
+    return obs + [-7] + dump
+
+
+# ------------------------------------------------------------------ histories of the family
+def scripted_g():
+    hs = []
+    for ck in ('md5', 'ts'):
+        S = [('SetChecker', ck), ('Write', 0, 0), ('Write', 1, 1)]
+        C = G([0], getargs=[(1, 0)])
+        P = G([1], values=[(0, 5)], result=1)
+        P2 = G([1], values=[(0, 1)], result=2)
+        P3 = G([1], values=[(0, 0)], result=3)
+        allr = ('Run', [], True, False, [])
+        only = ('Run', [0], False, False, [])
+        # consumer defined first, plain `doit`, three times
+        hs.append(S + [('Order', [0, 1, 2]), ('GDef', 0, C), ('GDef', 1, P), allr, allr, allr])
+        # provider defined first, only the consumer selected
+        hs.append(S + [('Order', [1, 0, 2]), ('GDef', 0, C), ('GDef', 1, P), only, only, only])
+        # the provider's result changes (its file too): consumer only (up-to-date: the provider is not even looked at),
+        # then everything (provider first: executed, consumer rebuilt), then again
+        hs.append(S + [('Order', [1, 0, 2]), ('GDef', 0, C), ('GDef', 1, P), only, only, ('Write', 1, 3), ('GDef', 1, P2), only, only,
+                       allr, allr, allr])
+        # the consumer must run (its file changed) and the provider re-executes as its setup-task with ANOTHER result
+        hs.append(S + [('Order', [1, 0, 2]), ('GDef', 0, C), ('GDef', 1, P), only, only, ('Write', 0, 3), ('Write', 1, 3), ('GDef', 1, P2),
+                       only, only, ('Touch', 0), ('Write', 1, 0), ('GDef', 1, P3), only, only, allr, allr])
+        # consumer first in the file, everything selected, provider changes while the consumer is up-to-date: lazily rebuilt by the next run
+        hs.append(S + [('Order', [0, 1, 2]), ('GDef', 0, C), ('GDef', 1, P), allr, allr, ('Write', 1, 3), ('GDef', 1, P2), allr, allr, allr])
+        # explicit result_dep: the provider is a task_dep
+        E = G([0], utd=[('result_dep', 1)])
+        hs.append(S + [('Order', [0, 1, 2]), ('GDef', 0, E), ('GDef', 1, P), only, only, ('Write', 1, 3), ('GDef', 1, P2), only, only, allr, allr])
+        hs.append(S + [('Order', [1, 0, 2]), ('GDef', 0, G([], utd=[('result_dep', 1)])), ('GDef', 1, P), allr, allr, ('Write', 1, 3), ('GDef', 1, P3),
+                       allr, allr])
+        # both at once, and a chain T2 <- T0 <- T1
+        hs.append(S + [('Order', [2, 0, 1]), ('GDef', 1, P), ('GDef', 0, G([0], utd=[('run_once',)], values=[(1, 1)], result=0, getargs=[(1, 0)])),
+                       ('GDef', 2, G([], utd=[('result_dep', 1), ('config', 1)], getargs=[(0, 1), (1, 0)])),
+                       ('Run', [2], False, False, []), ('Run', [2], False, False, []), ('Write', 1, 3), ('GDef', 1, P2),
+                       ('Run', [2], False, False, []), ('Run', [2], False, False, []), allr, allr])
+        # a provider without result / a key the provider does not produce / forget and ignore of the provider / a failing provider
+        hs.append(S + [('Order', [0, 1, 2]), ('GDef', 0, C), ('GDef', 1, G([1], values=[(0, 5)])), allr, allr, ('GDef', 1, P), allr, allr])
+        hs.append(S + [('Order', [0, 1, 2]), ('GDef', 0, G([0], getargs=[(1, 2)])), ('GDef', 1, P), allr, allr, ('GDef', 1, G([1], values=[(2, None)], result=1)),
+                       allr, ('Write', 1, 3), allr, allr])
+        hs.append(S + [('Order', [1, 0, 2]), ('GDef', 0, C), ('GDef', 1, P), only, ('Forget', 1), only, only, ('Ignore', 1), only, ('Forget', 0), only,
+                       ('Forget', 1), only, only])
+        hs.append(S + [('Order', [0, 1, 2]), ('GDef', 0, C), ('GDef', 1, P), ('Run', [], True, False, [1]), allr, allr, ('Write', 1, 3),
+                       ('Run', [], True, False, [1]), allr, allr])
+    return hs
+
+
+ITEM_W = [('bool', True)] * 7 + [('call', True)] * 2 + [('call', None), ('none',), ('cmd', True)] + [('run_once',)] * 3 + [('bool', False)]
+
+
+def gen_gdef(rng, t, lower, defs, force=None):
+    fd = rng.sample([0, 1], rng.choice([0, 1, 1, 1, 2]))
+    items = []
+    for _ in range(rng.choice([0, 0, 1, 1, 2])):
+        if rng.random() < 0.15 and not any(u[0] == 'config' for u in items):
+            items.append(('config', rng.randrange(3)))
+        else:
+            items.append(rng.choice(ITEM_W))
+    getargs = []
+    kind = force if (force and lower) else None
+    if lower and (kind == 'result_dep' or (kind is None and rng.random() < 0.25)):
+        items.insert(rng.randrange(len(items) + 1), ('result_dep', rng.choice(lower)))
+    if lower and (kind == 'getargs' or (kind is None and rng.random() < 0.4)):
+        for _ in range(rng.choice([1, 1, 1, 2])):
+            p = rng.choice(lower)
+            keys = [k for k, _ in defs[p]['values']]
+            getargs.append((p, rng.choice(keys) if (keys and rng.random() < 0.93) else rng.randrange(3)))
+    values = [(k, rng.choice([0, 1, 5, None])) for k in sorted(rng.sample(range(3), rng.choice([0, 1, 1, 2])))]
+    tg = [2] if (t == 0 and rng.random() < 0.15) else []
+    return G(fd, tg, items, values, rng.choice([None, 0, 1, 2, 3, 0, 1, 2, 3]), getargs)
+
+
+def gen_g(rng, ck, par, out):
+    order = rng.sample(range(NT), NT)
+    rank = rng.sample(range(NT), NT)              # rank[i] may take values only from rank[j], j < i: no cycles
+    h = [('SetChecker', ck), ('Order', order)]
+    content = {}
+    for f in (0, 1):
+        content[f] = rng.randrange(5)
+        h.append(('Write', f, content[f]))
+    defs = {}
+    consumer = rank[-1] if rng.random() < 0.7 else rank[1]
+    for i, t in enumerate(rank):
+        force = rng.choice(['getargs', 'getargs', 'result_dep']) if t == consumer else None
+        defs[t] = gen_gdef(rng, t, rank[:i], defs, force)
+        if i == 0 and not defs[t]['values']:
+            defs[t]['values'] = [(rng.randrange(3), rng.choice([0, 1, 5]))]
+    for t in sorted(defs, key=lambda x: rng.random()):
+        h.append(('GDef', t, defs[t]))
+    if defs[0]['targets'] and rng.random() < 0.7:
+        h.append(('Write', 2, 2))
+
+    def a_run(fail_ok):
+        r = rng.random()
+        if r < 0.35:
+            sel, plain = [], True
+        elif r < 0.65:
+            sel, plain = [consumer], False
+        else:
+            sel, plain = rng.sample(range(NT), rng.choice([1, 2, 2, 3])), False
+        fails = [rng.randrange(NT)] if (fail_ok and rng.random() < 0.08) else []
+        out.count('g-run:%s%s%s' % ('plain' if plain else 'consumer-only' if sel == [consumer] else 'subset', ':threads' if par else '', ':failing' if fails else ''))
+        return ('Run', sel, plain, par, fails)
+
+    def repeat(r):
+        h.append(r)
+        if not r[4] and rng.random() < 0.65:
+            h.append(r)
+
+    def redef(t, **kw):
+        defs[t] = dict(defs[t], **kw)
+        h.append(('GDef', t, defs[t]))
+
+    repeat(a_run(True))
+    for _ in range(rng.choice([1, 2, 2, 3])):
+        for _ in range(rng.choice([1, 1, 2])):
+            provs = sorted(set(p for t in defs for p in res_deps(defs[t]))) or [rank[0]]
+            p = rng.choice(provs)
+            r = rng.random()
+            if r < 0.30:            # the provider's file dep and result change: it re-executes with another result
+                kind = 'provider-file+result'
+                for f in defs[p]['file_dep'][:1] or [rng.randrange(2)]:
+                    content[f] = rng.choice([c for c in range(5) if c != content[f]])
+                    h.append(('Write', f, content[f]))
+                redef(p, result=rng.choice([x for x in range(4) if x != defs[p]['result']]))
+            elif r < 0.40:
+                kind = 'provider-result-only'
+                redef(p, result=rng.choice([None, 0, 1, 2, 3]))
+            elif r < 0.50:
+                kind = 'provider-values'
+                redef(p, values=[(k, rng.choice([0, 1, 5, None])) for k in sorted(rng.sample(range(3), rng.choice([1, 2])))])
+            elif r < 0.62:
+                kind = 'write'
+                f = rng.randrange(2)
+                content[f] = rng.choice([c for c in range(5) if c != content[f]])
+                h.append(('Write', f, content[f]))
+            elif r < 0.70:
+                kind = 'touch-or-same-content'
+                f = rng.randrange(2)
+                h.append(('Touch', f) if rng.random() < 0.5 else ('Write', f, content[f]))
+            elif r < 0.80:
+                kind = 'redefine'
+                t = rng.choice(rank)
+                i = rank.index(t)
+                defs[t] = gen_gdef(rng, t, rank[:i], defs, None)
+                h.append(('GDef', t, defs[t]))
+            elif r < 0.88:
+                kind = 'forget'
+                h.append(('Forget', rng.randrange(NT)))
+            elif r < 0.91:
+                kind = 'ignore'
+                h.append(('Ignore', rng.randrange(NT)))
+            elif r < 0.95:
+                kind = 'order'
+                order = rng.sample(range(NT), NT)
+                h.append(('Order', order))
+            else:
+                kind = 'nothing'
+            out.count('g-edit:' + kind)
+        repeat(a_run(True))
+    last = a_run(False)
+    h += [last, last]
+    return h
+
+
+def g_key(h):
+    return 'g:' + json.dumps(h, sort_keys=True, default=str)
+
+
+def explore_g(ctx, out):
+    rng = ctx.rng
+    hs = [('scripted', h, False) for h in scripted_g()]
+    n, npar = ctx.n(66, 600), ctx.n(18, 150)
+    for i in range(n):
+        hs.append(('random', gen_g(rng, ('md5', 'md5', 'ts')[i % 3], False, out), False))
+    for i in range(npar):
+        hs.append(('threads', gen_g(rng, ('md5', 'ts')[i % 2], True, out), True))
+    cases = []
+    for i, (kind, h, par) in enumerate(hs):
+        for b in (('json', 'dbm', 'sqlite') if kind == 'scripted' else (('json', 'dbm', 'sqlite')[i % 3],)):
+            try:
+                obs = run_g(ctx, b, h, out)
+            except Exception as e:  # noqa
+                obs = [97, len(type(e).__name__)]
+            out.count('g:' + kind + ':' + b)
+            if not par:
+                cases.append(dict(model=g_coq(h), expected=obs, desc=(kind, h, b)))
+        out.nontrivial.add(g_key(h))
+        for o in h:
+            out.count('g-op:' + o[0])
+    bad = common.compare_with_model(ctx, PRE_G, cases, tag='c04g')
+    for i, m in bad:
+        out.mismatches.append(dict(case=g_coq(cases[i]['desc'][1]), history=cases[i]['desc'][1], backend=cases[i]['desc'][2],
+                                   impl=cases[i]['expected'], model=m))
+    out.evaluations += len(cases) + npar
+    out.traces_validated += len(cases)
+    out.extra['getargs_histories_through_DoitMain'] = dict(scripted_x3_backends=len(scripted_g()), random_serial=n, random_threads_oracle_only=npar)
+    if cases:
+        out.samples.append(dict(getargs=g_coq(cases[0]['desc'][1]), observed=cases[0]['expected']))
+
+
+def shrink_g(ctx, out):
+    done = set()
+    for v in out.c04_violations:
+        case = v.get('case', {})
+        if v['shape'] in done or not any(o[0] == 'GDef' for o in case.get('history', [])) or 'unshrunk_history' in case:
+            continue
+        done.add(v['shape'])
+        try:
+            small = c03.shrink(ctx, case['backend'], case['history'], v['shape'], True, run_g, 150)
+        except Exception:
+            continue
+        case['unshrunk_history'] = case['history']
+        case['run_in_unshrunk_history'] = case.pop('run', None)
+        case['history'] = small
+        case['history_coq'] = g_coq(small)
+
+
+RULE_G = (' ++ family getargs (harness/c04.py, model Getargs.v): run-level histories over 3 tasks with getargs / explicit result_dep -- provider '
+          'defined before or after the consumer, plain `doit` / only the consumer / a subset selected, the provider re-executing (file dep and result '
+          'changed) as a setup-task or a task_dep, forget / ignore / failing actions, runs repeated immediately -- through DoitMain (serial on one of '
+          'json/dbm/sqlite3 round-robin, scripted ones on all three; compared with grun of Getargs.v) and with -n 2 -P thread (oracles only); '
+          'each distinct history counts as non-trivial')
+
 
 def run(ctx):
     out = Outcome()
-    out.rule = c03.RULE
+    out.rule = c03.RULE + RULE_G
     c03.explore(ctx, out)
     c03.explore_e2e(ctx, out)
+    explore_g(ctx, out)
+    shrink_g(ctx, out)
     c03.shrink_findings(ctx, out, c03=False)
     c03_viol = out.violations
     out.violations = list(out.c04_violations) + [v for v in c03_viol if v['shape'] == 'checker-switch-typeerror']
     out.extra['c03_oracle_findings_seen_here'] = len(c03_viol)
     out.assumptions = ['FS-fresh (see C03)', 'callables / shell commands in uptodate are oracles',
                        'hypothesis of completeness includes: the snapshot was taken under the configured checker '
-                       '(a record written by another checker is deleted by get_status: documented)']
-    out.extra['trusted_base'] = ['harness/c03.py: World, Shadow, encoders (shared with C03)']
+                       '(a record written by another checker is deleted by get_status: documented)',
+                       'family getargs: result_dep / getargs on single tasks (no group tasks), acyclic, no implicit task_dep through targets; '
+                       'threaded runs are judged by the oracles only (see known finding c08:getargs-consumer-check-not-ordered-after-source)']
+    out.extra['trusted_base'] = ['harness/c03.py: World, Shadow, encoders (shared with C03)',
+                                 'harness/c04.py: run_g (translation of run-level histories to doit command lines), GShadow and the repeat oracle']
+    out.extra['notes'] = ['getargs / result_dep over whole runs is modelled (coq/Model/Getargs.v, theorems C04_getargs_* of Properties/C04.v) AND '
+                          'judged by two implementation-side oracles (shadow on the reporter event order; immediate repeat of a fully successful run)']
     return out
 
 
 def replay(ctx, payload):
+    case = payload.get('case', {})
+    h = case.get('history', [])
+    if any(o[0] == 'GDef' for o in h):
+        out = Outcome()
+        out.c04_violations = []
+        h = norm(h)
+        b = case.get('backend', 'json')
+        print(b, run_g(ctx, b, h, out))
+        for v in out.c04_violations:
+            print('VIOLATION', v['shape'], v['what'], 'task', v['case']['task'], 'run at operation', v['case']['run'])
+        return 1 if out.c04_violations else 0
     return c03.replay(ctx, payload)
